@@ -402,6 +402,21 @@ def stderr_check(n, vary, rng):
         got = out['c%d_%s' % (i, p)].stderr
         if got is None or abs(got - want[r]) > 1e-6 * max(1e-12, abs(want[r])):
             return True, 'component-rank', 'component %d %s: stderr %r but own diagonal entry gives %r (free %s)' % (i, p, got, float(want[r]), free)
+    # correlated noise: stderr from J^T C^-1 J, through both calling conventions (B with C, B alone), masked pixels included
+    data = real_np.zeros((7, 6))
+    data[0, 0] = data[3, 4] = real_np.nan
+    mask = real_np.where(real_np.isfinite(data))
+    Cm = fit.Cmatrix(mask[0], mask[1], 0.6, 0.5, 20.0)
+    Bm = fit.Bmatrix(Cm)
+    J = fit.lmfit_jacobian(pars, mask[0], mask[1], errs=1.0)
+    want = real_np.sqrt(real_np.diag(real_np.linalg.inv(J.T.dot(real_np.linalg.inv(Cm)).dot(J))))
+    for label, kw in (('B and C', dict(B=Bm, C=Cm)), ('B only', dict(B=Bm))):
+        import copy
+        out = fit.covar_errors(copy.deepcopy(pars), data, errs=1.0, **kw)
+        for r, (i, p) in enumerate(free):
+            got = out['c%d_%s' % (i, p)].stderr
+            if got is None or not (abs(got - want[r]) <= 1e-4 * max(1e-12, abs(want[r]))):
+                return True, 'fisher-matrix', 'covar_errors(%s): component %d %s stderr %r, but sqrt of the own diagonal entry of inv(J^T C^-1 J) is %r' % (label, i, p, got, float(want[r]))
     return False, None, None
 
 
